@@ -1,5 +1,519 @@
-//! placeholder, filled in below
+//! C17 (generated config usable iff source, output and lockfile untouched) and
+//! C18 (configuration meaning depends only on its JSON value) - in-process sweeps through
+//! `verif::config_load_check` = `Config::new` + `Config::check` as `cli::handle` calls them.
+//! The generated files come from the real `monorail config generate` (binary in VX_MONORAIL).
+
+use crate::*;
+use rayon::prelude::*;
 use serde_json::{json, Value};
-use std::path::Path;
-pub fn run(_p: &str, _tier: &str, _root: &Path) -> Value { json!({}) }
-pub fn replay(_p: &str, _case: &Value, _root: &Path) -> Vec<(String, String)> { vec![] }
+use std::io::Write;
+use std::path::{Path, PathBuf};
+
+fn monorail_bin() -> String {
+    std::env::var("VX_MONORAIL").unwrap_or_else(|_| "/verif/target/repo-hooks/debug/monorail".into())
+}
+
+fn base_config(n_targets: usize, source: Option<&str>) -> Value {
+    let mut targets = vec![];
+    for i in 0..n_targets {
+        let mut t = serde_json::Map::new();
+        t.insert("path".into(), json!(format!("pkg/t{:04}", i)));
+        if i % 3 == 1 {
+            t.insert("uses".into(), json!([format!("pkg/t{:04}", i - 1), "shared/lib"]));
+        }
+        if i % 4 == 2 {
+            t.insert("ignores".into(), json!([format!("pkg/t{:04}/README.md", i)]));
+        }
+        targets.push(Value::Object(t));
+    }
+    let mut m = serde_json::Map::new();
+    if let Some(s) = source {
+        m.insert("source".into(), json!({"path": s}));
+    }
+    m.insert("out_dir".into(), json!("monorail-out"));
+    m.insert("max_retained_runs".into(), json!(3));
+    m.insert("targets".into(), json!(targets));
+    m.insert("sequences".into(), json!({"dev": ["build", "test"]}));
+    m.insert("server".into(), json!({"log": {"port": 5918}, "lock": {"port": 5917}}));
+    Value::Object(m)
+}
+
+/// Source text whose *generated* counterpart is close to `want` bytes (targets added until reached).
+fn source_of_size(want: usize, name: &str) -> Vec<u8> {
+    let mut n = 1;
+    loop {
+        let v = base_config(n, Some(name));
+        let s = serde_json::to_vec_pretty(&v).unwrap();
+        if s.len() >= want || n > 5000 {
+            return s;
+        }
+        n += 1;
+    }
+}
+
+struct Gen {
+    label: String,
+    source_name: String,
+    source: Vec<u8>,
+    generated: Vec<u8>,
+    lock: Vec<u8>,
+}
+
+/// Runs the real `config generate` in `dir` (cwd) for a source file; output `<label>.json` + `.lock`.
+fn generate(dir: &Path, label: &str, source: &[u8]) -> Result<Gen, String> {
+    let source_name = format!("src-{}.json", label);
+    std::fs::write(dir.join(&source_name), source).map_err(|e| e.to_string())?;
+    let out_path = dir.join(format!("{}.json", label));
+    let mut child = std::process::Command::new(monorail_bin())
+        .args(["-f", out_path.to_str().unwrap(), "config", "generate"])
+        .current_dir(dir)
+        .stdin(std::process::Stdio::piped())
+        .stdout(std::process::Stdio::piped())
+        .stderr(std::process::Stdio::piped())
+        .spawn()
+        .map_err(|e| format!("spawn monorail: {}", e))?;
+    child.stdin.take().unwrap().write_all(source).map_err(|e| e.to_string())?;
+    let out = child.wait_with_output().map_err(|e| e.to_string())?;
+    if !out.status.success() {
+        return Err(format!("config generate failed: {}", String::from_utf8_lossy(&out.stderr)));
+    }
+    Ok(Gen {
+        label: label.to_string(),
+        source_name,
+        source: source.to_vec(),
+        generated: std::fs::read(&out_path).map_err(|e| e.to_string())?,
+        lock: std::fs::read(dir.join(format!("{}.lock", label))).map_err(|e| e.to_string())?,
+    })
+}
+
+fn load(cfg_path: &Path, dir: &Path) -> Result<Result<String, String>, String> {
+    let (c, d) = (cfg_path.to_path_buf(), dir.to_path_buf());
+    guarded(move || monorail::verif::config_load_check(&c, &d))
+}
+
+#[derive(Clone, Copy, Debug)]
+enum Edit {
+    Xor1,
+    Xor20,
+    Delete,
+    InsertSpace,
+}
+impl Edit {
+    const ALL: [Edit; 4] = [Edit::Xor1, Edit::Xor20, Edit::Delete, Edit::InsertSpace];
+    fn apply(&self, b: &[u8], off: usize) -> Vec<u8> {
+        let mut v = b.to_vec();
+        match self {
+            Edit::Xor1 => v[off] ^= 0x01,
+            Edit::Xor20 => v[off] ^= 0x20,
+            Edit::Delete => {
+                v.remove(off);
+            }
+            Edit::InsertSpace => v.insert(off, b' '),
+        }
+        v
+    }
+    fn name(&self) -> &'static str {
+        match self {
+            Edit::Xor1 => "xor01",
+            Edit::Xor20 => "xor20",
+            Edit::Delete => "delete",
+            Edit::InsertSpace => "insert_space",
+        }
+    }
+}
+
+/// per-thread working copy names: config `<label>-w<k>.json`, lock `<label>-w<k>.lock`
+fn work_names(dir: &Path, g: &Gen) -> (PathBuf, PathBuf) {
+    let k = rayon::current_thread_index().unwrap_or(999);
+    (
+        dir.join(format!("{}-w{}.json", g.label, k)),
+        dir.join(format!("{}-w{}.lock", g.label, k)),
+    )
+}
+
+fn same_config(a: &[u8], b: &[u8]) -> bool {
+    match (serde_json::from_slice::<Value>(a), serde_json::from_slice::<Value>(b)) {
+        (Ok(x), Ok(y)) => x == y,
+        _ => false,
+    }
+}
+
+pub fn run_c17(tier: &str, root: &Path) -> Value {
+    let rep = Report::new();
+    let dir = root.join("c17");
+    std::fs::create_dir_all(&dir).unwrap();
+    // Config::check resolves source.path against the current directory
+    std::env::set_current_dir(&dir).unwrap();
+    let sizes: Vec<(usize, &str)> = vec![
+        (150, "s150"),
+        (4096, "s4k"),
+        (8191, "s8191"),
+        (8192, "s8192"),
+        (8193, "s8193"),
+        (20_000, "s20k"),
+        (70_000, "s70k"),
+    ];
+    let mut gens = vec![];
+    for (want, label) in &sizes {
+        // start below the wanted generated size (generate adds ~110 bytes), then pad up exactly
+        let exact = [8191usize, 8192, 8193].contains(want);
+        let mut src = source_of_size(if exact { *want - 400 } else { *want }, &format!("src-{}.json", label));
+        // pad with trailing spaces inside the source so the generated size hits the boundary sizes exactly
+        let g = generate(&dir, label, &src);
+        match g {
+            Err(e) => {
+                rep.violation("generate-failed", 0, json!({"size": want}), e);
+                continue;
+            }
+            Ok(mut g) => {
+                if [8191usize, 8192, 8193].contains(want) {
+                    // adjust: lengthen out_dir value in the source until generated size == want
+                    // each extra character of the out_dir value adds exactly one byte
+                    let mut tries = 0;
+                    while g.generated.len() != *want && tries < 5 {
+                        let mut v: Value = serde_json::from_slice(&src).unwrap();
+                        let cur = v["out_dir"].as_str().unwrap().to_string();
+                        let have = g.generated.len();
+                        let newval = if have < *want {
+                            format!("{}{}", cur, "x".repeat(*want - have))
+                        } else if cur.len() > have - *want {
+                            cur[..cur.len() - (have - *want)].to_string()
+                        } else {
+                            break;
+                        };
+                        v["out_dir"] = json!(newval);
+                        src = serde_json::to_vec_pretty(&v).unwrap();
+                        g = generate(&dir, label, &src).unwrap();
+                        tries += 1;
+                    }
+                }
+                gens.push(g);
+            }
+        }
+    }
+    rep.extra("generated_sizes", json!(gens.iter().map(|g| json!({"label": g.label, "source_bytes": g.source.len(), "generated_bytes": g.generated.len()})).collect::<Vec<_>>()));
+    let stride_big = if tier == "thorough" { 1 } else { 3 };
+    for g in &gens {
+        // untouched must load
+        let (wc, wl) = work_names(&dir, g);
+        std::fs::write(&wc, &g.generated).unwrap();
+        std::fs::write(&wl, &g.lock).unwrap();
+        rep.eval(1);
+        match load(&wc, &dir) {
+            Ok(Ok(_)) => {}
+            Ok(Err(e)) => rep.violation("untouched-rejected", g.generated.len() as u64, json!({"size": g.generated.len(), "label": g.label, "edit": "none"}), e),
+            Err(p) => rep.violation("panic", 0, json!({"size": g.generated.len(), "label": g.label, "edit": "none"}), p),
+        }
+        // every offset of the generated file x 4 edits; truncations; appends
+        let n = g.generated.len();
+        // quick: files above 32 KB are swept at stride 3 plus every offset within 8 bytes of a
+        // multiple of 8192 (the I/O buffer size) and the last 64 bytes; thorough: every offset
+        let offsets: Vec<usize> = if stride_big == 1 || n < 32_768 {
+            (0..n).collect()
+        } else {
+            (0..n).filter(|o| o % stride_big == 0 || (o % 8192 < 8 || o % 8192 > 8184) || *o + 64 >= n).collect()
+        };
+        offsets.par_iter().for_each(|&off| {
+            let (wc, wl) = work_names(&dir, g);
+            if !wl.exists() {
+                std::fs::write(&wl, &g.lock).unwrap();
+            }
+            let mut variants: Vec<(String, Vec<u8>)> = Edit::ALL.iter().map(|e| (format!("{}@{}", e.name(), off), e.apply(&g.generated, off))).collect();
+            if off % 64 == 0 || off == n - 1 {
+                variants.push((format!("truncate@{}", off), g.generated[..off].to_vec()));
+            }
+            if off == 0 {
+                for tail in [" ", "\n", "x"] {
+                    let mut v = g.generated.clone();
+                    v.extend_from_slice(tail.as_bytes());
+                    variants.push((format!("append{:?}", tail), v));
+                }
+            }
+            for (name, bytes) in variants {
+                rep.eval(1);
+                let nontrivial = same_config(&bytes, &g.generated);
+                if nontrivial {
+                    rep.nontrivial(1);
+                }
+                std::fs::write(&wc, &bytes).unwrap();
+                match load(&wc, &dir) {
+                    Ok(Err(_)) => {}
+                    Ok(Ok(_)) => rep.violation(
+                        if off >= 8192 { "tamper-accepted:beyond-first-buffer" } else { "tamper-accepted" },
+                        (n as u64) * 1_000_000 + off as u64,
+                        json!({"size": n, "label": g.label, "file": "generated", "edit": name}),
+                        format!("generated file edited ({}) but load+check succeeded{}", name, if nontrivial { " (edit keeps the JSON value: only the checksum can catch it)" } else { "" }),
+                    ),
+                    Err(p) => rep.violation("panic", 0, json!({"size": n, "label": g.label, "file": "generated", "edit": name}), p),
+                }
+            }
+        });
+        // source edits (generated + lock untouched); the source name is shared, so sequential per label
+        let (wc, wl) = work_names(&dir, g);
+        std::fs::write(&wc, &g.generated).unwrap();
+        std::fs::write(&wl, &g.lock).unwrap();
+        let sn = g.source.len();
+        let sstride = if tier == "thorough" || sn < 10_000 { 1 } else if sn < 32_768 { 7 } else { 31 };
+        let spath = dir.join(&g.source_name);
+        for off in (0..sn).step_by(sstride) {
+            for e in Edit::ALL {
+                rep.eval(1);
+                std::fs::write(&spath, e.apply(&g.source, off)).unwrap();
+                match load(&wc, &dir) {
+                    Ok(Err(_)) => {}
+                    Ok(Ok(_)) => rep.violation("source-tamper-accepted", (sn as u64) * 1_000_000 + off as u64, json!({"size": n, "label": g.label, "file": "source", "edit": format!("{}@{}", e.name(), off)}), "source edited but load+check succeeded".into()),
+                    Err(p) => rep.violation("panic", 0, json!({"label": g.label, "file": "source"}), p),
+                }
+            }
+        }
+        for (name, bytes) in [("truncate_last", g.source[..sn - 1].to_vec()), ("append_nl", [g.source.clone(), b"\n".to_vec()].concat())] {
+            rep.eval(1);
+            rep.nontrivial(1);
+            std::fs::write(&spath, bytes).unwrap();
+            if let Ok(Ok(_)) = load(&wc, &dir) {
+                rep.violation("source-tamper-accepted", 1, json!({"size": n, "label": g.label, "file": "source", "edit": name}), "source edited but load+check succeeded".into());
+            }
+        }
+        std::fs::write(&spath, &g.source).unwrap();
+        // lockfile: every position of the checksum string
+        let lock_text = String::from_utf8_lossy(&g.lock).to_string();
+        if let Some(start) = lock_text.find("\":\"").map(|i| i + 3) {
+            for off in start..start + 64 {
+                let mut b = g.lock.clone();
+                b[off] = if b[off] == b'0' { b'1' } else { b'0' };
+                rep.eval(1);
+                rep.nontrivial(1);
+                std::fs::write(&wl, &b).unwrap();
+                if let Ok(Ok(_)) = load(&wc, &dir) {
+                    rep.violation("lock-tamper-accepted", off as u64, json!({"size": n, "label": g.label, "file": "lock", "edit": format!("hexdigit@{}", off)}), "lockfile checksum edited but load+check succeeded".into());
+                }
+            }
+            std::fs::write(&wl, &g.lock).unwrap();
+            // and everything is usable again once restored
+            rep.eval(1);
+            if let Ok(Err(e)) = load(&wc, &dir) {
+                if !(e.contains("invalid JSON") && n > 8192) {
+                    rep.violation("restored-rejected", 2, json!({"size": n, "label": g.label, "edit": "restored"}), e);
+                }
+            }
+        }
+    }
+    rep.sample(json!({"label": "s150", "file": "generated", "edit": "insert_space@17", "expect": "load+check fails"}));
+    rep.sample(json!({"label": "s70k", "file": "generated", "edit": "xor01@69000", "expect": "load+check fails"}));
+    rep.finish(
+        "for source configurations whose generated file is ~150 B, ~4 KiB, 8191, 8192, 8193, ~20 KiB and ~70 KiB (generated by the real `config generate`): untouched files must load and pass the integrity check; every offset of the generated file x {xor 0x01, xor 0x20, delete, insert space}, truncation at every multiple of 64 and at end-1, three appends; every offset of the source x the same edits (quick: stride 7 for sources above 10 KB, 31 above 32 KB; generated files above 32 KB at stride 3 plus every offset within 8 bytes of a multiple of 8192 and the last 64 bytes; thorough: every offset everywhere); every hex digit of the lockfile checksum; all must be rejected; non-trivial = edits after which the file still denotes the same JSON value (only the checksum can notice) plus all lockfile/source-append edits",
+        true,
+        json!({"sizes": sizes.iter().map(|s| s.0).collect::<Vec<_>>(), "edits": 4}),
+    )
+}
+
+// ------------------------------------------------------------------------------ C18
+
+/// minimal JSON writer with caller-chosen key order and layout
+fn ser(v: &Value, top_perm: &[usize], tgt_perm: &[usize], style: u8, depth: usize, out: &mut String) {
+    // style: 0 compact, 1 pretty 2 spaces, 2 pretty tabs
+    let nl = |out: &mut String, d: usize| {
+        if style > 0 {
+            out.push('\n');
+            for _ in 0..d {
+                out.push_str(if style == 1 { "  " } else { "\t" });
+            }
+        }
+    };
+    match v {
+        Value::Object(m) => {
+            let keys: Vec<&String> = m.keys().collect();
+            let perm: Vec<usize> = if depth == 0 {
+                top_perm.iter().copied().filter(|&i| i < keys.len()).collect()
+            } else if depth == 2 && m.contains_key("path") {
+                let mut p: Vec<usize> = tgt_perm.iter().copied().filter(|&i| i < keys.len()).collect();
+                for i in 0..keys.len() {
+                    if !p.contains(&i) {
+                        p.push(i);
+                    }
+                }
+                p
+            } else {
+                (0..keys.len()).collect()
+            };
+            let perm: Vec<usize> = if perm.len() == keys.len() { perm } else { (0..keys.len()).collect() };
+            out.push('{');
+            for (k, &i) in perm.iter().enumerate() {
+                if k > 0 {
+                    out.push(',');
+                }
+                nl(out, depth + 1);
+                out.push_str(&serde_json::to_string(keys[i]).unwrap());
+                out.push(':');
+                if style > 0 {
+                    out.push(' ');
+                }
+                ser(&m[keys[i]], top_perm, tgt_perm, style, depth + 1, out);
+            }
+            if !perm.is_empty() {
+                nl(out, depth);
+            }
+            out.push('}');
+        }
+        Value::Array(a) => {
+            out.push('[');
+            for (k, x) in a.iter().enumerate() {
+                if k > 0 {
+                    out.push(',');
+                }
+                nl(out, depth + 1);
+                ser(x, top_perm, tgt_perm, style, depth + 1, out);
+            }
+            if !a.is_empty() {
+                nl(out, depth);
+            }
+            out.push(']');
+        }
+        other => out.push_str(&other.to_string()),
+    }
+}
+
+fn pad_to(text: &str, total: usize, place: u8) -> Option<String> {
+    if text.len() > total {
+        return None;
+    }
+    let pad = " ".repeat(total - text.len());
+    let pos = match place {
+        0 => 0,
+        1 => text.find('{')? + 1,
+        2 => {
+            // between two targets: after the first "}," inside the targets array if any, else after first '{'
+            match text.find("},") {
+                Some(i) => i + 2,
+                None => text.find('{')? + 1,
+            }
+        }
+        _ => text.len(),
+    };
+    Some(format!("{}{}{}", &text[..pos], pad, &text[pos..]))
+}
+
+pub fn run_c18(tier: &str, root: &Path) -> Value {
+    let rep = Report::new();
+    let dir = root.join("c18");
+    std::fs::create_dir_all(&dir).unwrap();
+    let thorough = tier == "thorough";
+    let bases: Vec<(&str, Value)> = vec![
+        ("small3", {
+            let mut v = base_config(3, None);
+            v["change_provider"] = json!({"use": "git"});
+            v
+        }),
+        ("t40", base_config(40, None)),
+        ("t300", base_config(300, None)),
+    ];
+    let sizes: Vec<usize> = vec![4096, 8191, 8192, 8193, 16_384, 65_535, 65_536, 65_537, 262_144];
+    for (bname, base) in &bases {
+        let nkeys = base.as_object().unwrap().len();
+        let ident: Vec<usize> = (0..nkeys).collect();
+        let tident: Vec<usize> = (0..5).collect();
+        // list of (description, text)
+        let mut sers: Vec<(String, String)> = vec![];
+        for style in 0..3u8 {
+            let mut s = String::new();
+            ser(base, &ident, &tident, style, 0, &mut s);
+            sers.push((format!("style{}", style), s.clone()));
+            sers.push((format!("style{}+nl", style), format!("{}\n", s)));
+            if style > 0 {
+                sers.push((format!("style{}+crlf", style), s.replace('\n', "\r\n")));
+            }
+            for &total in &sizes {
+                for place in 0..4u8 {
+                    if let Some(p) = pad_to(&s, total, place) {
+                        sers.push((format!("style{}+pad{}@{}", style, total, place), p));
+                    }
+                }
+            }
+        }
+        if *bname == "small3" {
+            let perms = permutations(nkeys);
+            let step = if thorough { 1 } else { 7 };
+            for (pi, perm) in perms.iter().enumerate().step_by(step) {
+                let mut s = String::new();
+                ser(base, perm, &tident, (pi % 3) as u8, 0, &mut s);
+                sers.push((format!("topperm{}", pi), s));
+            }
+            // per-target key orders (uses/ignores/path present => 3 keys max here)
+            for (pi, perm) in permutations(3).iter().enumerate() {
+                let mut s = String::new();
+                ser(base, &ident, perm, 1, 0, &mut s);
+                sers.push((format!("tgtperm{}", pi), s));
+            }
+        }
+        // reference value: the compact form
+        let reference: std::sync::Mutex<Option<Value>> = std::sync::Mutex::new(None);
+        {
+            let p = dir.join(format!("{}-ref.json", bname));
+            std::fs::write(&p, &sers[0].1).unwrap();
+            match load(&p, &dir) {
+                Ok(Ok(s)) => *reference.lock().unwrap() = serde_json::from_str(&s).ok(),
+                Ok(Err(e)) => rep.violation(if sers[0].1.len() > 8192 { "rejected:larger-than-io-buffer" } else { "rejected" }, 0, json!({"base": bname, "serialisation": sers[0].0, "bytes": sers[0].1.len()}), e),
+                Err(p) => rep.violation("panic", 0, json!({"base": bname}), p),
+            }
+        }
+        let refv = reference.lock().unwrap().clone();
+        sers.par_iter().enumerate().for_each(|(k, (desc, text))| {
+            rep.eval(1);
+            if text.len() > 8192 {
+                rep.nontrivial(1);
+            }
+            let p = dir.join(format!("{}-w{}.json", bname, rayon::current_thread_index().unwrap_or(999)));
+            std::fs::write(&p, text).unwrap();
+            let case = || json!({"base": bname, "serialisation": desc, "bytes": text.len()});
+            match load(&p, &dir) {
+                Ok(Ok(s)) => {
+                    let v: Option<Value> = serde_json::from_str(&s).ok();
+                    if refv.is_some() && v != refv {
+                        rep.violation("value-differs", k as u64, case(), "same JSON value, different loaded configuration".into());
+                    }
+                }
+                Ok(Err(e)) => rep.violation(
+                    if text.len() > 8192 { "rejected:larger-than-io-buffer" } else { "rejected" },
+                    text.len() as u64,
+                    case(),
+                    e,
+                ),
+                Err(pn) => rep.violation("panic", 0, case(), pn),
+            }
+        });
+        rep.count(&format!("serialisations_{}", bname), sers.len() as u64);
+    }
+    rep.sample(json!({"base": "small3", "serialisation": "style1+pad8193@2", "bytes": 8193}));
+    rep.sample(json!({"base": "t300", "serialisation": "style0", "note": "300 targets compact"}));
+    rep.finish(
+        "bases {3 targets with uses/ignores/sequences/server, 40 targets, 300 targets} x serialisations {compact, pretty(2 spaces), pretty(tab)} x {as is, trailing newline, CRLF} x whitespace padding to total sizes {4096, 8191, 8192, 8193, 16384, 65535, 65536, 65537, 262144} at {start, after first brace, between two targets, end}; for the small base also every top-level key permutation (quick: every 7th) and every per-target key order; oracle: every serialisation is accepted by Config::new+check and yields the same configuration value as the compact form; non-trivial = serialisations larger than 8192 bytes",
+        true,
+        json!({"bases": 3, "pad_sizes": sizes}),
+    )
+}
+
+pub fn run(p: &str, tier: &str, root: &Path) -> Value {
+    if p == "c17" {
+        run_c17(tier, root)
+    } else {
+        run_c18(tier, root)
+    }
+}
+
+pub fn replay(p: &str, case: &Value, root: &Path) -> Vec<(String, String)> {
+    // C17/C18 cases are identified by (label/base, edit/serialisation); re-running the sweep and
+    // filtering is simplest and still takes seconds.
+    let out = run(p, "quick", root);
+    let mut d = vec![];
+    for v in out["violations"].as_array().cloned().unwrap_or_default() {
+        let same = if p == "c17" {
+            v["case"]["label"] == case["label"] && v["case"]["edit"] == case["edit"] && v["case"]["file"] == case["file"]
+        } else {
+            v["case"]["base"] == case["base"] && v["case"]["serialisation"] == case["serialisation"]
+        };
+        if same {
+            d.push((v["sig"].as_str().unwrap_or("").to_string(), v["detail"].as_str().unwrap_or("").to_string()));
+        }
+    }
+    d
+}
